@@ -573,7 +573,60 @@ def _count_calls(R):
     return calls
 
 
+TOOL_FILES = {
+    "component.xml": '<component><sectiontype name="t"><key name="k" default="1"/></sectiontype></component>',
+    "full.xml": '<schema><sectiontype name="t"><key name="k"/></sectiontype><section type="t" name="*" attribute="s"/></schema>',
+    "extending.xml": None,      # filled in: a schema that extends full.xml of the same package
+    "broken.xml": '<schema><key name="k"',
+    "other.xml": '<config/>',
+    "truncated.xml": '<schema>\n<key name="k"/>\n',
+}
+
+
+def tool_probe(pkg):
+    """The loader behind zconfig_schema2html --package PKG FILE and the Sphinx directive, pointed
+    at a component, at complete schemas and at documents that are neither: everything it opened is
+    closed when it returns or raises.  -> [(sig, detail)]"""
+    import importlib
+    import shutil
+    import sys
+    import tempfile
+    import ZConfig._schema_utils
+    out = []
+    base = tempfile.mkdtemp(prefix="zcv-c19-")
+    try:
+        os.mkdir(os.path.join(base, pkg))
+        open(os.path.join(base, pkg, "__init__.py"), "w").close()
+        files = dict(TOOL_FILES)
+        files["extending.xml"] = '<schema extends="package:%s:full.xml"><key name="more"/></schema>' % pkg
+        for fn, text in files.items():
+            with open(os.path.join(base, pkg, fn), "w", encoding="utf-8") as f:
+                f.write(text)
+        sys.path.insert(0, base)
+        importlib.invalidate_caches()
+        install()
+        for fn in sorted(files) + ["missing.xml"]:
+            reset()
+            try:
+                ZConfig._schema_utils.load_schema(fn, pkg)
+                how = "returned"
+            except Exception as e:  # noqa
+                how = "raised %s" % type(e).__name__
+            for l in leaks():
+                out.append(("leak:schema-tool:%s" % fn.split(".")[0], "%s ; load_schema(%r, package) %s" % (l, fn, how)))
+    finally:
+        if base in sys.path:
+            sys.path.remove(base)
+        for m in list(sys.modules):
+            if m.split(".")[0] == pkg:
+                del sys.modules[m]
+        shutil.rmtree(base, ignore_errors=True)
+    return out
+
+
 def evaluate(case):
+    if "tool" in case:
+        return [failure(sig, case, d) for sig, d in tool_probe(case["tool"])]
     sc = case["scenario"]
     try:
         fl = run_scenario(sc, only=case.get("point"))
@@ -593,6 +646,12 @@ def shards(tier, seed):
 def run_shard(spec):
     res = Result()
     for i in range(spec["lo"], spec["hi"]):
+        if i % 50 == 0:
+            pkg = "zcvtool%d_%d" % (spec["seed"] % 1000, i)
+            res.evaluations += len(TOOL_FILES) + 1
+            res.count("schema-tool-probes")
+            for sig, d in tool_probe(pkg):
+                res.fail(sig, {"tool": pkg}, d)
         rng = loadcheck.case_rng(spec["seed"] + 1919, i)
         sc = gen_scenario(rng, spec["seed"] * 100000 + i)
         fl = run_scenario(sc, res)
